@@ -1332,6 +1332,27 @@ def simd_op_lines(rng, b, t, op, n):
             out.append(pre + " " + " ".join(v.hex() for v in xs))
         else:
             out.append("%s %s" % (pre, x.hex()))
+    if op in ("add", "xor", "and", "or", "andnot"):
+        # RELATED operand pairs (rule 19 for two-operand operations): y = x, ~x, -x, and — at every group width w from
+        # 16 bits up to the whole vector — the pair whose low half-groups sum to exactly 2^(w/2) (carry out) while the
+        # high half-groups sum to all ones: a hand-rolled carry (`hi + carry`) overflows / goes wrong only there
+        xi = int.from_bytes(simd_operand(rng, nb, 8), "little")
+        full = (1 << (8 * nb)) - 1
+        rel = [xi, xi ^ full, (-xi) & full]
+        w = 16
+        while w <= 8 * nb:
+            h, y = w // 2, 0
+            for g in range(8 * nb // w):
+                xg = (xi >> (g * w)) & ((1 << w) - 1)
+                xl, xh = xg & ((1 << h) - 1), xg >> h
+                yl = ((1 << h) - xl) & ((1 << h) - 1) if xl else (1 << h) - 1
+                yh = xh ^ ((1 << h) - 1)
+                y |= ((yh << h) | yl) << (g * w)
+            rel.append(y)
+            w *= 2
+        for y in rel:
+            out.append("%s %s %s" % (pre, xi.to_bytes(nb, "little").hex(), y.to_bytes(nb, "little").hex()))
+            out.append("%s %s %s" % (pre, y.to_bytes(nb, "little").hex(), xi.to_bytes(nb, "little").hex()))
     if op in ("extract", "insert"):                    # out-of-range index: every backend panics
         x = simd_operand(rng, nb, 0)
         if op == "extract":
